@@ -16,11 +16,14 @@ from sim.world import World
 from sim.profiles import base
 from sim.profiles.base import BaseProfile, BaseCtx, URL
 
-MSGDIR = "/data/bgp/10.0.0.2/msg"
 KEYS = {"t", "seq", "type", "msg"}
 
 
-def audit(fs, prop="C20"):
+def msgdir(cfg):
+    return "/data/bgp/%s/msg" % cfg["remote_addr"].lower()
+
+
+def audit(fs, MSGDIR, prop="C20"):
     """Audit all log files in name order.  Raises Violation."""
     if MSGDIR not in fs.dirs:
         return 0, 0
@@ -183,6 +186,7 @@ class LogCtx(BaseCtx):
         w = self.world
         if w.exited and not w.crashed:
             why = [e for e in w.log if e[2] in ("exit", "exc") and e[3] == "boot"]
+            MSGDIR = msgdir(self.cfg)
             listing = self.fs.listing(MSGDIR) if MSGDIR in self.fs.dirs else []
             tail = ""
             if listing:
@@ -220,7 +224,7 @@ class LogCtx(BaseCtx):
             self.stats["restarts"] += 1
             self.check_boot()
             # after every (re)start the log on disk must already be consistent
-            audit(self.fs)
+            audit(self.fs, msgdir(self.cfg))
         self.stats["records_acked"] += self.fs.fsyncs - fsyncs
         if self.fs.fsyncs > fsyncs:
             self.nontrivial = True
@@ -238,8 +242,12 @@ class LogCtx(BaseCtx):
                 if e[4] == "fsync" and e[5] == "power":
                     self.stats["torn_tail_candidates"] += 1
             elif e[2] in ("exc", "exit") and e[3] != "boot":
-                # an exception escaping from a handler callback into the reactor
-                self.stats["escape_during_event"] += 1
+                # an exception escaping into the reactor while an event was being reported: the event
+                # has no line although no crash intervened
+                raise Violation("C20", "event", "report-raised/%s" % (e[4] if e[2] == "exc" else "SystemExit"),
+                                "while reporting an event (%s) the agent raised %s: the event was not logged although "
+                                "no crash happened (log files: %s)"
+                                % (e[3], e[4:], self.fs.listing(msgdir(self.cfg)) if msgdir(self.cfg) in self.fs.dirs else []))
 
     def finish(self):
         w = self.world
@@ -247,10 +255,10 @@ class LogCtx(BaseCtx):
             return
         if not w.exited:
             self.fs.process_exit()
-        nlines, nfrag = audit(self.fs)
+        nlines, nfrag = audit(self.fs, msgdir(self.cfg))
         self.stats["audited_lines"] += nlines
         self.stats["tolerated_crash_fragments"] += nfrag
-        if len(self.fs.listing(MSGDIR)) > 1:
+        if msgdir(self.cfg) in self.fs.dirs and len(self.fs.listing(msgdir(self.cfg))) > 1:
             self.stats["runs_with_rotation"] += 1
 
     def digest(self):
@@ -397,6 +405,9 @@ class LogProfile(BaseProfile):
         cfg["p_crash"] = rng.pick([0.05, 0.15, 0.3])
         cfg["p_restart"] = rng.pick([0.03, 0.1])
         cfg["crash_window"] = rng.pick([3, 10, 40, 120])
+        if rng.chance(0.15):
+            # an IPv6 peer written with upper-case hex digits (the option keeps the spelling)
+            cfg["remote_addr"] = "2001:DB8::2"
         cfg["peer_open"] = rp.encode_open(cfg["remote_as"], rng.pick([0, 90]), "2.2.2.2",
                                           [rp.cap_mp(1, 1), rp.cap_rr(), rp.cap_as4(cfg["remote_as"])]).hex()
         every = max(1, self.runs[tier] // self.sweeps[tier])
